@@ -128,6 +128,11 @@ func acceptedShapeAtoms() []OutsideAtom {
 		stNoLoop("go_bare_return_in_nested_if", "gw := new(sync.WaitGroup)\n\tgw.Add(1)\n\tgo func() {\n\t\tif y > 0 {\n\t\t\tif y > 1 {\n\t\t\t\tgw.Done()\n\t\t\t\treturn\n\t\t\t}\n\t\t\t*q = *q + 10\n\t\t}\n\t\t*q = *q + 1\n\t\tgw.Done()\n\t}()\n\tgw.Wait()\n\tx += *q"),
 		stNoLoop("go_bare_return_early_exit", "gw := new(sync.WaitGroup)\n\tgw.Add(1)\n\tgo func() {\n\t\tif y > 1 {\n\t\t\tgw.Done()\n\t\t\treturn\n\t\t}\n\t\t*q = *q + 1\n\t\tgw.Done()\n\t}()\n\tgw.Wait()\n\tx += *q"),
 		st("closure_bare_return_in_range", "f := func() {\n\t\tfor _, v := range s {\n\t\t\tif v == 5 {\n\t\t\t\treturn\n\t\t\t}\n\t\t\t*q = *q + v + 1\n\t\t}\n\t}\n\tf()\n\tx += *q"),
+		st("clone_append_empty_literal", "cl := append([]uint64{}, s...)\n\tcl[0] = 99\n\tx += s[0] + cl[0] + uint64(len(cl))"),
+		st("clone_append_empty_literal_bytes", "cb := append([]byte{}, bs...)\n\tbs[0] = 42\n\tx += uint64(cb[0]) + uint64(bs[0])"),
+		st("clone_append_nil_var", "var cl []uint64\n\tcl = append(cl, s...)\n\ts[1] = 77\n\tx += cl[1] + s[1]"),
+		st("clone_append_make0", "cl := append(make([]uint64, 0), s...)\n\tcl[2] = 55\n\tx += cl[2] + s[2]"),
+		st("append_spread_self", "t := make([]uint64, 2)\n\tt[0] = x\n\tt = append(t, t...)\n\tt[0] = 5\n\tx += t[2] + uint64(len(t))"),
 		st("bare_block", "{\n\t\tt := x + 1\n\t\tx = t * 2\n\t}\n\tx += 1"),
 		st("empty_block", "{\n\t}\n\tx += 1"),
 		st("empty_stmt", ";\n\tx += 1"),
